@@ -18,6 +18,10 @@ Scopes
   docgen              tools/docgen.py documents (gen_doc / gen_malformed / inline soups) under random option sets
   lineends            CR / CRLF / NUL / BOM / no-final-newline / front matter variants (blocks_tie.lineend_variants)
   structured          the line-fragment products and the caps of blocks_tie (special_docs), all extensions on
+  reference budget    a long reference definition used until the expansions pass max_ref_size (floor 100000 bytes), in
+                      paragraphs, headings, items, quotes, cells and a footnote: the budget is threaded across blocks.
+                      (Inputs longer than 100000 bytes, where max_ref_size = total_size, agree as well but take the model
+                      minutes each - its positions are unary numbers - and are not part of the scopes.)
   corpus              the witnesses of known_findings.json that are documents, under their recorded options
 
 Classes per case: agree | scope (the model answers OutOfScope: a leaf content holding NUL - `feed` replaces NUL, so
@@ -180,6 +184,17 @@ def corpus():
     return out
 
 
+def budget_docs():
+    """one definition whose url + title is a few thousand bytes, used often enough that the expansions pass the floor
+    of the reference budget (100000 bytes): the lookups after that fail, whichever block they are in"""
+    u = b"u" * 3300
+    out = [b"[r]: /" + u + b"\n\n" + b"[r]\n\n" * 32,
+           b"[r]: /" + u + b" '" + b"t" * 1700 + b"'\n\n" + b"[r] [r]\n\n> [r]\n\n- [r]\n\n" * 6 + b"| [r] |\n|---|\n| [r] |\n",
+           b"[a]: /" + b"v" * 2500 + b"\n[b]: /" + b"w" * 2500 + b"\n\n" + b"# [a] ![b]\n\n[a][]\n[x][b]\n\n" * 11,
+           b"[r]: /" + u + b"\n\n" + b"- [ ] [r]\n" * 16 + b"\nx[^f]\n\n[^f]: [r] [r]\n\n" + b"[r]\n\n" * 16]
+    return out
+
+
 # --------------------------------------------------------------------------- the tie
 def tie_parse(c, tier, frac=1.0, profile="debug", max_report=8):
     """correspondence `parser.whole`; returns True when every compared document agrees.  frac < 1 keeps that
@@ -193,17 +208,17 @@ def tie_parse(c, tier, frac=1.0, profile="debug", max_report=8):
     scopes = []
     ex = list(products(BYTES, 3))
     exb = [(OPTSETS[n], d) for d in ex for n in ("default", "all", "allb")]
-    longer = [b"".join(rng.choice(BYTES) for _ in range(rng.choice([4, 4, 5, 5, 6, 8]))) for _ in range(6000 if q else 150000)]
+    longer = [b"".join(rng.choice(BYTES) for _ in range(rng.choice([4, 4, 5, 5, 6, 8]))) for _ in range(20000 if q else 150000)]
     exb += [(OPTSETS[names[i % 4]], d) for i, d in enumerate(longer)]
     scopes.append(("exhaustive bytes <=3 (24 symbols, 3 option sets) + random 4..8", exb))
     tk = list(products(TOKENS, 2 if q else 3))
     ext = [(OPTSETS["all"], d) for d in tk] + [(OPTSETS["gfm"], d) for d in tk if rng.random() < (0.5 if q else 0.2)]
-    tl = [b"".join(rng.choice(TOKENS) for _ in range(rng.choice([3, 3, 4, 5, 6, 8, 12]))) for _ in range(5000 if q else 120000)]
+    tl = [b"".join(rng.choice(TOKENS) for _ in range(rng.choice([3, 3, 4, 5, 6, 8, 12]))) for _ in range(20000 if q else 120000)]
     ext += [(OPTSETS[names[i % 4]], d) for i, d in enumerate(tl)]
     ext = [(o, d) for (o, d) in ext if is_utf8(d)]
     scopes.append((f"exhaustive tokens <={2 if q else 3} (48 block/inline constructs) + random sequences", ext))
     dg = []
-    for _ in range(2500 if q else 60000):
+    for _ in range(8000 if q else 60000):
         o = docgen.opts_token(docgen.gen_opts(rng))
         r = rng.random()
         d = docgen.gen_doc(rng) if r < 0.55 else docgen.gen_malformed(rng) if r < 0.8 else "\n\n".join(docgen.inlines(rng) for _ in range(rng.randrange(1, 4)))
@@ -211,19 +226,20 @@ def tie_parse(c, tier, frac=1.0, profile="debug", max_report=8):
             d = d.encode("utf-8", "replace")
         dg.append((o, d))
     scopes.append(("docgen documents under random option sets", dg))
-    base = [d for _, d in dg[: (700 if q else 10000)]]
+    base = [d for _, d in dg[: (2500 if q else 10000)]]
     le = blocks_tie.lineend_variants(rng, base)
     fm = ["front_matter_delimiter=" + hx("---"), OPTSETS["all"] + ",front_matter_delimiter=" + hx("---"), OPTSETS["all"], "-"]
     scopes.append(("line endings / NUL / BOM / front matter variants", [(rng.choice(fm), d) for d in le]))
-    st = blocks_tie.structured_docs(rng, 600 if q else 20000)
+    st = blocks_tie.structured_docs(rng, 1500 if q else 20000)
     if q:
-        st = [d for d in st if rng.random() < 0.12]
+        st = [d for d in st if rng.random() < 0.25]
     sp = [d for d in blocks_tie.special_docs() if len(d) < (1500 if q else 10 ** 9)]
     scopes.append(("structured line fragments and caps (blocks_tie)", [(rng.choice([OPTSETS["all"], OPTSETS["allb"], "-"]), d) for d in st] + [(OPTSETS["all"], d) for d in sp]))
+    scopes.append(("reference budget: definitions expanded past max_ref_size, RefMap::ref_size threaded across blocks", [(o, d) for d in budget_docs() for o in ("-", OPTSETS["all"])]))
     scopes.append(("corpus: witnesses of known_findings.json", corpus()))
 
     if frac < 1.0:
-        scopes = [(name, [x for x in cases if rng.random() < frac] or cases[:1]) if not name.startswith("corpus") else (name, cases) for name, cases in scopes]
+        scopes = [(name, [x for x in cases if rng.random() < frac] or cases[:1]) if not name.startswith(("corpus", "reference budget")) else (name, cases) for name, cases in scopes]
     all_ok = True
     reported = 0
     shrunk = set()
